@@ -54,7 +54,7 @@ class SeqPart(Part):
         self.weight = weight
         self.probes = probes
         self.hooks = hooks
-        self.kw = dict(monitor=monitor, prologue=prologue, ro_snapshot=ro_snapshot)
+        self.kw = dict(monitor=monitor, prologue=prologue, ro_snapshot=ro_snapshot, target=prop)
         if name:
             self.name = name
 
